@@ -34,7 +34,7 @@ mpz_cmp (mpz_srcptr u, mpz_srcptr v)
   vsize = SIZ(v);
   dsize = usize - vsize;
   if (dsize != 0)
-    return dsize;
+    return dsize > 0 ? 1 : -1;	/* the difference itself need not fit an int */
 
   asize = ABS (usize);
   up = PTR(u);
